@@ -1,6 +1,9 @@
 package generator
 
 import (
+	"crypto/sha256"
+	"encoding/hex"
+	"hash"
 	"io"
 	"strconv"
 	"strings"
@@ -11,8 +14,9 @@ import (
 
 func NewRangeWriter(w io.Writer) *RangeWriter {
 	return &RangeWriter{
-		w:       w,
-		builder: &strings.Builder{},
+		w:        w,
+		builder:  &strings.Builder{},
+		codeHash: sha256.New(),
 	}
 }
 
@@ -25,6 +29,20 @@ type RangeWriter struct {
 	index    int
 	builder  *strings.Builder
 	Literals []string
+
+	// codeHash is a running hash of everything written except the contents of string
+	// literals (and anything written while skipHash is set), i.e. of the Go code that
+	// has to be recompiled when it changes.
+	codeHash hash.Hash
+	skipHash bool
+}
+
+// CodeHash returns a digest of the generated code with the contents of string literals left out.
+func (rw *RangeWriter) CodeHash() string {
+	if rw.codeHash == nil {
+		return ""
+	}
+	return hex.EncodeToString(rw.codeHash.Sum(nil))
 }
 
 func (rw *RangeWriter) closeLiteral(indent int) (r parser.Range, err error) {
@@ -36,14 +54,20 @@ func (rw *RangeWriter) closeLiteral(indent int) (r parser.Range, err error) {
 	sb.WriteString(`templ_7745c5c3_Err = templruntime.WriteString(templ_7745c5c3_Buffer, `)
 	sb.WriteString(strconv.Itoa(rw.index))
 	sb.WriteString(`, "`)
+	if _, err := rw.write(sb.String()); err != nil {
+		return r, err
+	}
 	literal := rw.builder.String()
 	rw.Literals = append(rw.Literals, literal)
-	sb.WriteString(literal)
 	rw.builder.Reset()
-	sb.WriteString(`")`)
-	sb.WriteString("\n")
-
-	if _, err := rw.write(sb.String()); err != nil {
+	// The literal's contents are also written to the watch mode text file, and can change without recompilation.
+	rw.skipHash = true
+	_, err = rw.write(literal)
+	rw.skipHash = false
+	if err != nil {
+		return r, err
+	}
+	if _, err := rw.write(`")` + "\n"); err != nil {
 		return r, err
 	}
 
@@ -84,6 +108,9 @@ func (rw *RangeWriter) write(s string) (r parser.Range, err error) {
 		Index: rw.Current.Index,
 		Line:  rw.Current.Line,
 		Col:   rw.Current.Col,
+	}
+	if rw.codeHash != nil && !rw.skipHash {
+		rw.codeHash.Write([]byte(s))
 	}
 	utf8Bytes := make([]byte, 4)
 	for _, c := range s {
